@@ -2,6 +2,8 @@ import MoPepGen.Lemmas.SpecMono
 import MoPepGen.Lemmas.Graph
 import MoPepGen.Lemmas.GraphCuts
 import MoPepGen.Lemmas.Haplotype
+import MoPepGen.Lemmas.Tvg
+import MoPepGen.Lemmas.TvgLoop
 import MoPepGen.Props.C10
 /-!
 # C01 — completeness of callVariant  (PARTIAL: the graph construction is not modelled)
@@ -421,5 +423,315 @@ example :
       (requiredCuts rule none (pathSeq g [0, 1, 2]), boundaries g false [0, 1, 2],
        (requiredCuts rule none (pathSeq g [0, 1, 2])).all (boundaries g false [0, 1, 2]).contains)) =
       some ([2, 4, 5], [2, 5], false) := by decide
+
+/-! ## Layer G — function-level model of create_variant_graph -/
+
+/-! `Model/Tvg.lean` models the FIRST stage of the graph algorithm function by function
+(`ThreeFrameTVG.__init__` / `init_three_frames` / `splice` / `apply_variant` /
+`create_variant_graph` with its filter, `find_mnvs_from_adjacent_variants`, `sorted`, the three
+cursors and `active_frames`; `TVGNode.truncate_right` / `get_reference_next` /
+`get_reference_prev`) for linear transcripts with SNV / RNAEditingSite / INDEL records.  The
+tie to the real code is STRUCTURAL: on every check run the graph the real
+`create_variant_graph` built is compared node for node and edge for edge (up to node renaming)
+with the graph of `Tvg.createVariantGraph` on the same transcript and records (`G-tvgbuild`
+stream of `harness/c01.py`).
+
+FULL LANGUAGE THEOREM (the goal; NOT proved in full):
+
+    for every transcript `t` and record list `vs` in scope with
+    `Tvg.createVariantGraph inp vs = .ok g`, and every frame `f` that is active from the start
+    (the known ORF frame of a coding transcript, all three frames otherwise):
+    `{ (sequence, record ids) of the maximal paths of g from frame root f } = tvgLang t vs f`.
+
+What is proved, for all inputs (no size bound):
+  * `tvg_partition_invariant` — in every state reachable by `init_three_frames` followed by
+    any sequence of `splice` / `apply_variant` calls whose preconditions hold, the reference nodes
+    of each frame tile `[f, |t|)` exactly, carry the transcript slice of their range, consecutive
+    ones are joined by a `reference` edge, and every edge agrees with the positions; every
+    variant node hangs between the reference node ending at its `start` and the one starting at
+    its `stop` (`tvg_frames_tile`, `tvg_frames_tile_ordered`, `tvg_ref_node_is_slice`, `tvg_ref_successor`,
+    `tvg_variant_node_hangs` spell the parts out).  This is exactly the hypothesis under which
+    the graph IS the position automaton `Walk` of `Lemmas/Graph.lean`.  Part of the invariant:
+    a reference node has at most one `reference` out-edge and in-edge, so `get_reference_next` /
+    `get_reference_prev` never depend on the iteration order of Python's edge sets
+    (`tvg_reference_next_deterministic`, `tvg_reference_prev_deterministic`).
+  * `tvg_create_variant_graph_reach` — the cursor loop of `createVariantGraph` (filter, MNV
+    merge, `sorted`, three cursors, `active_frames`, in-frame and frame-bridging applications)
+    only issues calls whose preconditions hold: every graph it returns is such a reachable state
+    (`tvg_create_variant_graph_invariant`).
+  * `tvg_path_language_sound_partial` / `tvg_create_variant_graph_sound_partial` — the soundness
+    half of the language theorem: every maximal path spells the `applyHap` sequence of the
+    records it takes, which are separated.
+What is missing for the full theorem is listed at `tvg_path_language_sound_partial` below. -/
+
+open MoPepGen.Tvg in
+/-- **Partition invariant.**  For every transcript `t` with at least three bases and every graph
+state `s` reachable by `initThreeFrames t` followed by any sequence of `splice` (reference node,
+cut strictly inside, edge type `reference`) and `applyVariant` calls (record a non-empty stretch
+inside `t`; source a reference node `[a, b)` of frame `f` with `a ≤ start < b`, `f < start`;
+target a reference node starting at or before `start`) that do not raise: `Inv t s` (tiling,
+slices, edges agree with positions, consecutive reference nodes linked) and `VarLinked t s`
+(every variant node has its `variant_start` in-edge and, unless its record ends at `|t|`, its
+`variant_end` out-edge). -/
+theorem tvg_partition_invariant (t : List Char) (h3 : 3 ≤ t.length) (s : TState)
+    (h : Reach t s) : Inv t s ∧ VarLinked t s :=
+  reach_inv h3 h
+
+open MoPepGen.Tvg in
+/-- the reference nodes of frame `f` tile `[f, |t|)`: every position of the frame lies in
+exactly one reference node of that frame -/
+theorem tvg_frames_tile (t : List Char) (h3 : 3 ≤ t.length) (s : TState) (h : Reach t s)
+    (f p : Nat) (hf : f < 3) (hfp : f ≤ p) (hp : p < t.length) :
+    ∃ i a b, IsRef s i f a b ∧ a ≤ p ∧ p < b ∧
+      ∀ j a' b', IsRef s j f a' b' → a' ≤ p → p < b' → j = i := by
+  obtain ⟨hI, _⟩ := reach_inv h3 h
+  obtain ⟨i, a, b, hi, h1, h2⟩ := hI.cover f p hf hfp hp
+  exact ⟨i, a, b, hi, h1, h2, fun j a' b' hj h1' h2' =>
+    hI.disjoint j i f a' b' a b hj hi (by omega) (by omega)⟩
+
+open MoPepGen.Tvg in
+/-- the same as a list: the reference nodes of frame `f`, ORDERED BY START, tile `[f, |t|)`
+exactly — there is a list of (node, start, end) triples, contiguous from `f` to `|t|`
+(`RefChain`: each stretch starts where the previous one ends, none is empty), made of reference
+nodes of frame `f` and containing every one of them -/
+theorem tvg_frames_tile_ordered (t : List Char) (h3 : 3 ≤ t.length) (s : TState) (h : Reach t s)
+    (f : Nat) (hf : f < 3) :
+    ∃ l, RefChain f t.length l ∧ (∀ x ∈ l, IsRef s x.1 f x.2.1 x.2.2) ∧
+      ∀ i x y, IsRef s i f x y → (i, x, y) ∈ l :=
+  tvg_frame_chain (reach_inv h3 h).1 hf h3
+
+open MoPepGen.Tvg in
+/-- a reference node is a non-empty stretch `[a, b)` of its frame (`f ≤ a < b ≤ |t|`) and its
+sequence is the transcript slice `t[a:b]` -/
+theorem tvg_ref_node_is_slice (t : List Char) (h3 : 3 ≤ t.length) (s : TState) (h : Reach t s)
+    (i f a b : Nat) (sq : List Char) (hn : s.nodes[i]? = some ⟨f, .ref a b, sq⟩) :
+    f < 3 ∧ f ≤ a ∧ a < b ∧ b ≤ t.length ∧ sq = slice t a b := by
+  have := (reach_inv h3 h).1.nodesOk i _ hn
+  simpa only [NodeOk, slice] using this
+
+open MoPepGen.Tvg in
+/-- contiguity, with the explicit edge: the reference node `[a, b)` of frame `f` with `b < |t|`
+has a `reference` edge to a reference node of frame `f` that starts at `b` (and every reference
+node of the frame starting at `b` is that node, by `tvg_frames_tile`) -/
+theorem tvg_ref_successor (t : List Char) (h3 : 3 ≤ t.length) (s : TState) (h : Reach t s)
+    (i f a b : Nat) (hi : IsRef s i f a b) (hb : b < t.length) :
+    ∃ j c, IsRef s j f b c ∧ (⟨i, j, .reference⟩ : TEdge) ∈ s.edges := by
+  obtain ⟨hI, _⟩ := reach_inv h3 h
+  obtain ⟨j, c, hj⟩ := hI.next_ref hi hb
+  exact ⟨j, c, hj, hI.refLinked _ _ _ _ _ _ hi hj⟩
+
+open MoPepGen.Tvg in
+/-- the explicit edges agree with the positions: the variant node `k` of record `v` (created in
+frame `f`) has a `variant_start` in-edge, EVERY edge into it is a `variant_start` edge from a
+reference node of frame `f` ENDING at `v.start`; if `v.stop < |t|` it has a `variant_end`
+out-edge, and EVERY edge out of it is a `variant_end` edge to a reference node STARTING at
+`v.stop` -/
+theorem tvg_variant_node_hangs (t : List Char) (h3 : 3 ≤ t.length) (s : TState) (h : Reach t s)
+    (k f : Nat) (v : Rec) (hk : IsVar s k f v) :
+    (∃ e ∈ s.edges, e.dst = k) ∧
+    (∀ e ∈ s.edges, e.dst = k → e.ty = .variantStart ∧ ∃ a, IsRef s e.src f a v.start) ∧
+    (v.stop < t.length → ∃ e ∈ s.edges, e.src = k) ∧
+    (∀ e ∈ s.edges, e.src = k → e.ty = .variantEnd ∧ ∃ g d, IsRef s e.dst g v.stop d) := by
+  obtain ⟨hI, hL⟩ := reach_inv h3 h
+  obtain ⟨⟨e, he, h1, _⟩, hend⟩ := hL k f v hk (by simp)
+  refine ⟨⟨e, he, h1⟩, ?_, ?_, ?_⟩
+  · intro e he hd
+    have hok := hI.edgeOk e he
+    obtain ⟨src, dst, ty⟩ := e
+    simp only at hd; subst hd
+    cases ty <;> simp only [EdgeOk] at hok
+    · rcases hok with ⟨_, _, _, _, _, h2⟩ | ⟨_, _, _, _, h2⟩ | ⟨_, _, _, h2⟩
+      · exact (h2.not_var hk).elim
+      · exact (h2.not_var hk).elim
+      · exact (hk.not_null h2).elim
+    · obtain ⟨f', a, b, v', h1, h2, h3⟩ := hok
+      obtain ⟨rfl, rfl⟩ := hk.inj h2
+      exact ⟨rfl, a, h3 ▸ h1⟩
+    · obtain ⟨_, _, _, _, _, _, h2, _⟩ := hok
+      exact (h2.not_var hk).elim
+  · intro hs
+    obtain ⟨e, he, h1, _⟩ := hend hs
+    exact ⟨e, he, h1⟩
+  · intro e he hsrc
+    have hok := hI.edgeOk e he
+    obtain ⟨src, dst, ty⟩ := e
+    simp only at hsrc; subst hsrc
+    cases ty <;> simp only [EdgeOk] at hok
+    · rcases hok with ⟨_, _, _, _, h1, _⟩ | ⟨_, _, _, h1, _⟩ | ⟨_, _, h1, _⟩
+      · exact (h1.not_var hk).elim
+      · exact (hk.not_null h1).elim
+      · exact (hk.not_null h1).elim
+    · obtain ⟨_, _, _, _, h1, _, _⟩ := hok
+      exact (h1.not_var hk).elim
+    · obtain ⟨f', v', g, c, d, h1, h2, h3⟩ := hok
+      obtain ⟨rfl, rfl⟩ := hk.inj h1
+      exact ⟨rfl, g, d, h3 ▸ h2⟩
+
+open MoPepGen.Tvg in
+/-- Python iterates over a `set` of edges in `get_reference_next`; the model raises where the
+result would depend on the iteration order.  In every reachable state that never happens on a
+reference node: `get_reference_next` is `None` exactly at the end of the transcript and
+otherwise THE reference node of the same frame that starts where this one ends (there is
+exactly one `reference` out-edge — no duplicate `TVGEdge` objects either) -/
+theorem tvg_reference_next_deterministic (t : List Char) (h3 : 3 ≤ t.length) (s : TState)
+    (hR : Reach t s) (i f a b : Nat) (hi : IsRef s i f a b) :
+    (b = t.length ∧ getReferenceNext s i = .ok none) ∨
+      (∃ j c, IsRef s j f b c ∧ getReferenceNext s i = .ok (some j)) :=
+  getReferenceNext_total (reach_inv h3 hR).1 hi
+
+open MoPepGen.Tvg in
+/-- … and `get_reference_prev` of a reference node never raises in the model: there is at most
+one `reference` in-edge -/
+theorem tvg_reference_prev_deterministic (t : List Char) (h3 : 3 ≤ t.length) (s : TState)
+    (hR : Reach t s) (i f a b : Nat) (hi : IsRef s i f a b) :
+    ∃ r, getReferencePrev s i = .ok r :=
+  getReferencePrev_total (reach_inv h3 hR).1 hi
+
+open MoPepGen.Tvg in
+/-- **The graph is the position automaton — soundness half of the language theorem.**
+FULL STATEMENT (not proved): for `Tvg.createVariantGraph inp vs = .ok g` and every frame `f`
+active from the start, the set of `(pathSeqT g p, ids of pathVarsT g p)` over the maximal paths
+`p` from frame root `f` equals `tvgLang t vs f`.
+PROVED HERE, for every reachable state `s` (in particular every graph built by calls whose
+preconditions hold), every frame `f`, the reference node `i` of that frame starting at `f` and
+every maximal path `p` from it: the records `h` the path takes are records that have a variant
+node in the graph, they are ascending and strictly separated, and the path spells
+`(applyHap t h).drop f` — the graph denotes no sequence outside the definition's form.
+MISSING for the full statement: (a) that the variant nodes of `createVariantGraph inp vs` carry
+exactly `recordPool t vs` (the filter and `find_mnvs_from_adjacent_variants` against `usable` /
+`mergedPairs` — compared per input by the `G-tvgbuild` stream and by checkpoint CP1, not proved);
+(b) completeness — every separated sub-collection of the pool has a path from every frame that
+is active from the start, which needs the `active_frames` argument (a frame a path can be in
+carries every later record).  (That the cursor loop only issues calls whose preconditions hold
+IS proved: `tvg_create_variant_graph_reach`.) -/
+theorem tvg_path_language_sound_partial (t : List Char) (h3 : 3 ≤ t.length) (s : TState)
+    (hR : Reach t s) (i f b : Nat) (hi : IsRef s i f f b) (p : List Nat) (hp : TPath s i p) :
+    (∀ v ∈ pathVarsT s p, v ∈ varPool s) ∧ separated (pathVarsT s p) = true ∧
+      pathSeqT s p = (applyHap t (pathVarsT s p)).drop f := by
+  obtain ⟨hI, hL⟩ := reach_inv h3 hR
+  exact tpath_language_sound hI hL hi hp
+
+open MoPepGen.Tvg in
+/-- **The cursor loop stays inside the preconditions.**  For every input of
+`create_variant_graph` in scope — transcript of at least three bases, records that are
+non-empty stretches inside the transcript and no fusion — if the model does not raise, the graph
+it returns is reachable by `init_three_frames` followed by `apply_variant` calls whose
+preconditions hold.  (The bounds of the source cursor come from the loop's own checks; within
+the frame-bridging branch a cursor that was a source may still be a target, a cursor that was
+only a target may still be a source.) -/
+theorem tvg_create_variant_graph_reach (inp : TvgIn) (vs : List Rec) (g : TState)
+    (h3 : 3 ≤ inp.seq.length) (hvs : ∀ v ∈ vs, InOk inp.seq v)
+    (h : createVariantGraph inp vs = .ok g) : Reach inp.seq g :=
+  createVariantGraph_reach_of_inOk h3 hvs h
+
+open MoPepGen.Tvg in
+/-- the partition invariant holds on every graph `createVariantGraph` returns -/
+theorem tvg_create_variant_graph_invariant (inp : TvgIn) (vs : List Rec) (g : TState)
+    (h3 : 3 ≤ inp.seq.length) (hvs : ∀ v ∈ vs, InOk inp.seq v)
+    (h : createVariantGraph inp vs = .ok g) : Inv inp.seq g ∧ VarLinked inp.seq g :=
+  reach_inv h3 (createVariantGraph_reach_of_inOk h3 hvs h)
+
+open MoPepGen.Tvg in
+/-- soundness half of the language theorem for `createVariantGraph` itself: in the graph it
+returns, every maximal path from the reference node of frame `f` starting at `f` (the child of
+frame root `f`) spells `(applyHap seq h).drop f` for the records `h` it takes, which have a
+variant node in the graph and are ascending and strictly separated -/
+theorem tvg_create_variant_graph_sound_partial (inp : TvgIn) (vs : List Rec) (g : TState)
+    (h3 : 3 ≤ inp.seq.length) (hvs : ∀ v ∈ vs, InOk inp.seq v)
+    (h : createVariantGraph inp vs = .ok g)
+    (i f b : Nat) (hi : IsRef g i f f b) (p : List Nat) (hp : TPath g i p) :
+    (∀ v ∈ pathVarsT g p, v ∈ varPool g) ∧ separated (pathVarsT g p) = true ∧
+      pathSeqT g p = (applyHap inp.seq (pathVarsT g p)).drop f :=
+  tvg_path_language_sound_partial inp.seq h3 g (createVariantGraph_reach_of_inOk h3 hvs h) i f b hi p hp
+
+/-! non-vacuity: the transcript `ATGGCCAAATAGGC` (known ORF at 0) with the SNV `G→T` at 3 and the
+frameshifting insertion `A→AC` at 7.  `create_variant_graph` applies the SNV in frame 0, the
+insertion activates the other two frames and is applied as bridges 0→2, 1→0, 2→1: four
+`apply_variant` calls whose preconditions hold, so the resulting graph is `Reach`able and the
+theorems above speak about it. -/
+section TvgNonVacuity
+open MoPepGen.Tvg
+/-- example transcript (not part of any statement) -/
+def tvgT : List Char := "ATGGCCAAATAGGC".toList
+/-- example SNV -/
+def tvgSnv : Rec := { start := 3, stop := 4, ref := ['G'], alt := ['T'], type := "SNV", ids := [0] }
+/-- example frameshifting insertion -/
+def tvgIns : Rec := { start := 7, stop := 8, ref := ['A'], alt := ['A', 'C'], type := "INDEL", ids := [1] }
+/-- the graph `create_variant_graph` builds for the example -/
+def tvgG : Except String TState :=
+  createVariantGraph { seq := tvgT, hasKnownOrf := true, orf := some (0, 9), mrnaEndNF := false }
+    [tvgSnv, tvgIns]
+
+/-- the states after each of the four `apply_variant` calls of the example, as the cursor loop
+issues them (source, target): (4, 4) for the SNV, then (9, 6), (5, 9), (6, 5) for the insertion -/
+def tvgS0 : TState := initThreeFrames tvgT
+def tvgS1 : TState :=
+  match applyVariant tvgS0 4 4 tvgSnv with | .ok (s, _, _) => s | .error _ => default
+def tvgS2 : TState :=
+  match applyVariant tvgS1 9 6 tvgIns with | .ok (s, _, _) => s | .error _ => default
+def tvgS3 : TState :=
+  match applyVariant tvgS2 5 9 tvgIns with | .ok (s, _, _) => s | .error _ => default
+def tvgS4 : TState :=
+  match applyVariant tvgS3 6 5 tvgIns with | .ok (s, _, _) => s | .error _ => default
+
+/-- the example graph: 19 nodes, 22 edges, and it is what the four calls build -/
+example : (tvgG.toOption.map fun g => (g.nodes.length, g.edges.length)) = some (19, 22) := by decide +kernel
+example : tvgG.toOption = some tvgS4 := by decide +kernel
+
+/-- the four calls do not raise and their preconditions hold (each `IsRef` witness is the node
+itself), so the graph of the example is `Reach`able -/
+theorem tvg_example_reach : Reach tvgT tvgS4 := by
+  have e1 : applyVariant tvgS0 4 4 tvgSnv = .ok (tvgS1, 4, 4) := rfl
+  have e2 : applyVariant tvgS1 9 6 tvgIns = .ok (tvgS2, 9, 6) := rfl
+  have e3 : applyVariant tvgS2 5 9 tvgIns = .ok (tvgS3, 5, 9) := rfl
+  have e4 : applyVariant tvgS3 6 5 tvgIns = .ok (tvgS4, 6, 5) := rfl
+  have p1 : ApplyPre tvgT tvgS0 4 4 tvgSnv :=
+    ⟨by decide, ⟨0, 0, 14, ⟨_, rfl⟩, by decide, by decide, by decide⟩, ⟨0, 0, 14, ⟨_, rfl⟩, by decide⟩⟩
+  have p2 : ApplyPre tvgT tvgS1 9 6 tvgIns :=
+    ⟨by decide, ⟨0, 4, 14, ⟨_, rfl⟩, by decide, by decide, by decide⟩, ⟨2, 2, 14, ⟨_, rfl⟩, by decide⟩⟩
+  have p3 : ApplyPre tvgT tvgS2 5 9 tvgIns :=
+    ⟨by decide, ⟨1, 1, 14, ⟨_, rfl⟩, by decide, by decide, by decide⟩, ⟨0, 4, 7, ⟨_, rfl⟩, by decide⟩⟩
+  have p4 : ApplyPre tvgT tvgS3 6 5 tvgIns :=
+    ⟨by decide, ⟨2, 2, 8, ⟨_, rfl⟩, by decide, by decide, by decide⟩, ⟨1, 1, 7, ⟨_, rfl⟩, by decide⟩⟩
+  exact Reach.apply (Reach.apply (Reach.apply (Reach.apply Reach.init p1 e1) p2 e2) p3 e3) p4 e4
+
+/-- … hence the invariant holds on it (through the theorem, not by evaluation) -/
+example : Inv tvgT tvgS4 ∧ VarLinked tvgT tvgS4 :=
+  tvg_partition_invariant tvgT (by decide) _ tvg_example_reach
+
+/-- the tiling of frame 0 of the example graph as a chain: `[0,3) [3,4) [4,7) [7,8) [8,14)` -/
+example : RefChain 0 tvgT.length [(4, 0, 3), (8, 3, 4), (9, 4, 7), (11, 7, 8), (15, 8, 14)] ∧
+    ∀ x ∈ [(4, 0, 3), (8, 3, 4), (9, 4, 7), (11, 7, 8), (15, 8, 14)],
+      ∃ sq, tvgS4.nodes[x.1]? = some ⟨0, .ref x.2.1 x.2.2, sq⟩ := by
+  refine ⟨⟨rfl, by decide, rfl, by decide, rfl, by decide, rfl, by decide, rfl, by decide, rfl⟩, ?_⟩
+  intro x hx
+  simp only [List.mem_cons, List.not_mem_nil, or_false] at hx
+  rcases hx with rfl | rfl | rfl | rfl | rfl <;> exact ⟨_, rfl⟩
+
+/-- a maximal path of the example graph that takes the SNV in frame 0 and then the bridge of the
+insertion into frame 2: nodes `[0,3) · T · [4,7) · AC · [8,14)` (indices 4, 7, 9, 10, 12) -/
+example : pathSeqT tvgS4 [4, 7, 9, 10, 12] = "ATGTCCAACATAGGC".toList ∧
+    (pathVarsT tvgS4 [4, 7, 9, 10, 12]).map (·.ids) = [[0], [1]] ∧
+    pathSeqT tvgS4 [4, 7, 9, 10, 12] = (applyHap tvgT (pathVarsT tvgS4 [4, 7, 9, 10, 12])).drop 0 := by
+  decide
+
+/-- … and it IS a maximal path of the example graph, so `tvg_path_language_sound_partial` applies -/
+example : TPath tvgS4 4 [4, 7, 9, 10, 12] :=
+  .step ⟨4, 7, .variantStart⟩ (by decide) rfl (.step ⟨7, 9, .variantEnd⟩ (by decide) rfl
+    (.step ⟨9, 10, .variantStart⟩ (by decide) rfl (.step ⟨10, 12, .variantEnd⟩ (by decide) rfl
+      (.leaf (by decide)))))
+
+/-- the hypotheses of `tvg_create_variant_graph_reach` hold for the example -/
+example : 3 ≤ tvgT.length ∧ (∀ v ∈ [tvgSnv, tvgIns], InOk tvgT v) ∧ tvgG = .ok tvgS4 := by
+  refine ⟨by decide, ?_, rfl⟩
+  intro v hv
+  simp only [List.mem_cons, List.not_mem_nil, or_false] at hv
+  rcases hv with rfl | rfl <;> exact ⟨by decide, by decide, by decide⟩
+
+/-- a `splice` whose precondition holds (the frame-1 node `[1, 14)` cut at offset 4) -/
+example : SplicePre tvgS0 5 4 ∧
+    ∃ s', Tvg.splice tvgS0 5 4 .reference = .ok (s', 5, 7) :=
+  ⟨⟨1, 1, 14, ⟨_, rfl⟩, by decide, by decide⟩, _, rfl⟩
+end TvgNonVacuity
 
 end MoPepGen.Props.C01
